@@ -46,6 +46,10 @@ P.assume("preconditions (weakest that make every def.div obligation provable): 1
          "to_inertial_posvel m_0+m_k!=0 for 1<=k<N_active; barycentric: M(N_active)!=0 (forward), m_0!=0 (inverse: "
          "the code divides by p_b[0].m - sum_{1<=k<N_active} p_b[k].m). Zero masses are allowed wherever these "
          "conditions hold (in particular any test particle and any active body k>=1 in DH/barycentric)")
+P.assume("in-place variants reb_integrator_{mercurius,trace}_{inertial_to_dh,dh_to_inertial}: N_active is what the code "
+         "derives from the simulation (N if N_active==-1 or testparticle_type==1, else N_active), assumed 1<=N_active<=N; "
+         "M(N_active)!=0 (forward), M(N_active)!=0 and m_0!=0 (inverse: both divisions are unconditional); the centre of "
+         "mass is carried by ri_<integrator>.com_pos/com_vel instead of slot 0")
 P.assume("arrays passed as particles / p_j,p_h,p_b are distinct objects of length N (all call sites pass "
          "r->particles and ri_whfast.p_jh); p_mass is checked both as the same array as particles (all call sites "
          "for real particles) and as a separate array (variational particles: particles+vc.index)")
@@ -115,8 +119,10 @@ def free_arrays(name, comps):
 
 
 def mem(av):
-    """H(c,k): current content of a memory array"""
-    return lambda c, k: av.leaf(ix(k), c)
+    """H(c,k): current content of a memory array (H.av = the array view)"""
+    f = lambda c, k: av.leaf(ix(k), c)
+    f.av = av
+    return f
 
 
 def frozen(arrs):
@@ -241,10 +247,6 @@ class Once:
             return False
         self.head = True
         return True
-
-
-def guarded(j, lo, hi, eqs):
-    return [(nm, z3.Implies(between(lo, j, hi), e)) for nm, e in eqs]
 
 
 # =====================================================================================================
@@ -466,19 +468,9 @@ def helio_inverse_setup(v, c, post, need_m0, pair_nonzero=False):
 def mass_facts(cur, H, old, i, j, Na):
     """linear facts about particles[.].m while/after the first loop of DH to_inertial_pos has processed 1..i-1"""
     k = z3.Int("k")
-    return [("mass_done", z3.ForAll([k], z3.Implies(between(1, k, i), z3.Select(cur_arr(cur), k) == H("m", k)))),
+    return [("mass_done", z3.ForAll([k], z3.Implies(between(1, k, i), z3.Select(cur.av.array("m"), k) == H("m", k)))),
             ("mass_slot0", cur("m", 0) == z3.Select(old["m"], 0)),
             ("mass_rest", z3.Implies(j >= i, cur("m", j) == z3.Select(old["m"], j)))]
-
-
-def cur_arr(cur):
-    return cur.av.array("m")
-
-
-def mem(av):                      # (redefinition with access to the array view, see cur_arr)
-    f = lambda c, k: av.leaf(ix(k), c)
-    f.av = av
-    return f
 
 
 def dh_pos_loops(v, c, post, N, Na, parts, sp, old, H, cur, j):
